@@ -49,7 +49,7 @@ def harness(v, prop, scen, parallel=10, timeout=120):
 def run_c10(prop, tier, seed, replay=None):
     v = Verdict(prop, tier, seed)
     v.assumptions = ["the event loop is stepped with the double loop gate; the window between Torrent.Request's look at the store and its queueing is "
-                     "controlled with the Request.checked yield hook", "3 pieces, 3 consumers, priorities -1/0/1; idle prefetch (pickIdlePieces) is not driven"]
+                     "controlled with the Request.checked yield hook", "3 pieces, 3 consumers, priorities -1/0/1 and the idle priority (waiters without a priority, pruned by configuration changes); idle prefetch (pickIdlePieces) is not driven"]
     if replay:
         scen = [json.load(open(replay))["scenario"]]
     else:
@@ -60,6 +60,15 @@ def run_c10(prop, tier, seed, replay=None):
         r = run_tlc("MCRequests", "Requests_sim.cfg", workers=1, simulate=n, depth=90, seed=seed, timeout=3000)
         require_ok(r, "Requests simulation")
         scen = [{"kind": "requests", "steps": json.loads(p)} for p in sorted(set(r.lines("BEH")))]
+        os.unlink(r.outfile)
+        # a smaller geometry in which idle-priority waiters, pruning and verification meet often
+        r = run_tlc("MCRequests", "Requests_sim_idle.cfg", workers=1, simulate=n, depth=70, seed=seed + 1, timeout=3000)
+        require_ok(r, "Requests simulation (idle)")
+        scen += [{"kind": "requests", "steps": json.loads(p)} for p in sorted(set(r.lines("BEH")))]
+        os.unlink(r.outfile)
+        r = run_tlc("MCRequests", "Requests_prune.cfg", workers=8, timeout=3000)
+        if r.violation != "NoLostWakeup":
+            raise Internal("Requests_prune.cfg: the deviation is not refuted (%s / %s)" % (r.violation, r.error))
         os.unlink(r.outfile)
         if len(scen) < n // 2:
             raise Internal("Requests simulation: only %d behaviours" % len(scen))
